@@ -103,6 +103,30 @@ def run_roundtrip(arg):
                             viols.append((f"C18:third-read-differs", f"{fmt}: third read differs", case))
                     except Exception as e:
                         viols.append((f"C18:third-read-raises:{type(e).__name__}", f"{fmt}: {e!r}", case))
+            # a network read from a native file, edited through the API, written again: the file carries the edit
+            with quiet():
+                try:
+                    ne = Network(filelist=str(w1), fileformats="naunet", **kw)
+                    ne.remove_reaction(0)
+                    for k, r in enumerate(ne.reaction_list[:5]):
+                        r.alpha = 3.0e-11 * (k + 1)
+                        r.temp_max = 777.0 + k
+                    ne.reindex()
+                    se = snapshot(ne)
+                    w3 = tmp / "w3.naunet"
+                    ne.write(w3, "naunet")
+                    n3 = Network(filelist=str(w3), fileformats="naunet", **kw)
+                    s3 = snapshot(n3)
+                    if len(s3) != len(se):
+                        viols.append((f"C18:after-edit:count:{fmt}", f"{fmt}: edited network has {len(se)} reactions, the file written from it gives {len(s3)}", case))
+                    else:
+                        for a, b in zip(se, s3):
+                            bad = [k for k in a if a[k] != b[k]]
+                            if bad:
+                                viols.append((f"C18:after-edit:field:{'+'.join(bad)}", f"{fmt}: reaction {a['reactants']}->{a['products']} edited after reading a native file: { {k: (a[k], b[k]) for k in bad} } (in memory, read back)", case))
+                                break
+                except Exception as e:
+                    viols.append((f"C18:after-edit:raises:{type(e).__name__}", f"{fmt}: edit/write/read of a network read from a native file raised {e!r}", case))
         return fmt, nfiles, viols
     finally:
         shutil.rmtree(tmp, ignore_errors=True)
